@@ -60,7 +60,9 @@ def backupLine (st : BkRun) (lineNo : Nat) (line : String) : Except String (BkRu
         let gens : Nat → Nat := fun t => 1 + (writes.filter (· ≤ t)).length + (match raceAt with | some r => if r < t then 1 else 0 | none => 0)
         let oks : Nat → Bool := fun k => (script[k]?.getD "ok") == "ok"
         -- a stalled upload ends when doBackup's own five-minute limit does
-        let durs : Nat → Nat := fun k => if (script[k]?.getD "ok") == "stall" then 300000 else latency
+        let lat2 := (get "lat2").toNat?.getD 0
+        let durs : Nat → Nat := fun k => if (script[k]?.getD "ok") == "stall" then 300000
+                                          else if lat2 > 0 && k % 2 == 1 then lat2 else latency
         let maxDur := if script.contains "stall" then max latency 300000 else latency
         let waitAlways := Setec.Facts.backupWaitUnconditional.getD false
         let m := run waitAlways gens oks durs cancel (cancel / period + 5)
